@@ -297,8 +297,8 @@ def skeleton(tree, cls, name):
 
 def forward_table(tree):
     """[(kind of the add* method, kind of the target method it hands to _add_result_with_semaphore, whether
-    `self._stop_if_failfast()` follows)] - failfast on the forwarder is outside C12's domain (it is unset there, so that call
-    does nothing; C04 is about it), but which outcomes consult it is recorded"""
+    `self._stop_if_failfast()` follows)] - with failfast set on the forwarder that call is `self.stop()`, one more critical
+    section (`Conc.runOp`)"""
     rows = []
     for name, kind in KIND.items():
         fn = find(tree, 'ThreadsafeForwardingResult', name)
@@ -388,7 +388,7 @@ def nowIsLastTimeOrWallClock : Bool := %s
 def startTestRunClearsClock : Bool := %s
 /-- `shouldStop = property(_get_shouldStop, _set_shouldStop)` -/
 def shouldStopIsTheGuardedGetter : Bool := %s
-/-- `_stop_if_failfast()` is `if self.failfast: self.stop()` (nothing happens while failfast is unset on the forwarder) -/
+/-- `_stop_if_failfast()` is `if self.failfast: self.stop()` (with failfast set on the forwarder: one more critical section) -/
 def stopIfFailfastIsGuardedStop : Bool := %s
 
 end TTV.Generated.TfrSkel
